@@ -283,6 +283,19 @@ DecodeStrict(ty, doc, res, back) ==
      /\ (ty.t \in ByteFamilies /\ IsHexDoc(doc)) => back = HexOfDoc(doc)
 
 (***************************************************************************)
+(* 5b. Garbage inserted into a string document.  Let "s" be the encoder's   *)
+(*     text of a value v and g bytes that belong to no spelling of a value  *)
+(*     (zz, _, " 00", :Anycast, g, ! - white space alone is left out:       *)
+(*     trimming it is a leniency; only zz, g, ! are put in front of or      *)
+(*     inside s, where zeros and separators could be another spelling of    *)
+(*     the same value).  Decoding "g s", "s1 g s2" or "s g" is              *)
+(*     an error, or - where the longer string happens to spell something -  *)
+(*     another value; it is never v itself: that would mean the decoder     *)
+(*     ignored part of the string it was given.                             *)
+(***************************************************************************)
+InsertOK(ty, v, doc, res, back) == res = "err" \/ (res = "ok" /\ WF(doc) /\ ~Eq(ty, back, v))
+
+(***************************************************************************)
 (* 6.  The value-class partition (what TLC enumerates into test values) and *)
 (*     canonical spellings, used only to produce documents.                 *)
 (***************************************************************************)
@@ -322,9 +335,11 @@ NoAny(kind, wc, bits) == Addr(kind, wc, bits, 0, 0, "0")
 Anycasts == { <<0, 0, "0">>, <<1, 1, "0">>, <<1, 1, "1">>, <<1, 5, "21">>, <<1, 30, "0">>, <<1, 30, "1073741823">> }
 AddrBitPats(n) == IF n = 0 THEN { <<>> } ELSE { Zeros(n), Ones(n), Alt(n) }
 StdWcs == {"-128", "-127", "-1", "0", "1", "127"}
-VarWcs == {"-2147483648", "-32768", "-129", "-128", "-1", "0", "127", "128", "255", "65536", "2147483647"}
+VarWcs == {"-2147483648", "-32768", "-129", "-128", "-1", "0", "127", "128", "255", "1000", "65536", "2147483647"}
 ExternLens == IF Rich THEN 0..17 \cup 250..260 \cup 500..511 ELSE {0, 1, 3, 4, 8, 255, 256, 511}
-VarLens    == IF Rich THEN 0..9 \cup 248..264 \cup {510, 511} ELSE {0, 1, 4, 7, 8, 252, 255, 256, 257, 260, 511}
+\* every length around the places where the text of a variable address is as long as a standard one (64 characters:
+\* 249..251 bits = 62 digits + "X_", 253..255 bits = 64 digits + "_" ..., 256 bits = 64 digits)
+VarLens    == IF Rich THEN 0..9 \cup 236..268 \cup {510, 511} ELSE {0, 1, 4, 7, 8, 511} \cup 240..264
 AddrValues ==
        { NoAny("none", "0", "") }
   \cup { NoAny("extern", "0", BitsToStr(p)) : p \in UNION { AddrBitPats(n) : n \in ExternLens } }
@@ -361,7 +376,9 @@ CellTrees ==
             <<"refs4", Node(Alt(16), <<l1, l2, l3, Leaf(Ones(1023))>>)>>,
             <<"refs4-same-child", Node(Alt(16), <<l2, l2, l2, l2>>)>>,
             <<"depth3", Node(<<1>>, <<Node(<<0>>, <<l2, l3>>), Node(Alt(1023), <<Node(<<>>, <<l1>>)>>)>>)>>,
-            <<"chain12", Chain(12)>>, <<"library", LibCell>>, <<"ref-to-library", Node(Alt(8), <<LibCell, l1>>)>> }
+            <<"chain12", Chain(12)>>,
+            \* bags of exactly 255, 256, 257 distinct cells: the boundary of a one-byte cell counter / reference index
+            <<"cells255", Chain(254)>>, <<"cells256", Chain(255)>>, <<"cells257", Chain(256)>>, <<"library", LibCell>>, <<"ref-to-library", Node(Alt(8), <<LibCell, l1>>)>> }
 CellClasses == { [cls |-> t[1], v |-> t[2], canon |-> CellText(t[2])] : t \in CellTrees }
 
 BodyClasses ==
